@@ -1,6 +1,7 @@
 import Prism.Proofs.C12
 import Prism.Proofs.C12Box
 import Prism.Proofs.C12Float
+import Prism.Proofs.C12Xyy
 
 #print axioms Prism.Alg.C12_white_to_white
 #print axioms Prism.Alg.C12_identity
@@ -15,3 +16,5 @@ import Prism.Proofs.C12Float
 #print axioms Prism.C12_apply_float_D65_D50
 #print axioms Prism.C12_apply_float_D50_D65
 #print axioms Prism.C12_exact_white_to_white
+#print axioms Prism.C12_xyy_is_xyz
+#print axioms Prism.C12_adapt_xyy_region
